@@ -39,6 +39,9 @@ CHECKS = {
  "C08": ("runtime monitor: write->read bit identity for f64/f32/all integer widths (text route and DOM route), JSON-number recogniser on every output, RawNumber verbatim + accessor agreement with the literal classifier; arbitrary_precision build",
          "Exploration: all 8/16-bit integers, wide/128-bit integers at boundaries and random, f64 over every exponent x {edge, random} mantissas incl. subnormals and -0.0, f32 stratified 2^24 (quick) / all 2^32 (thorough), 380k raw-number literals bare and quoted.",
          "Trusted: harness JSON-number recogniser and classifier."),
+ "C04": ("differential runtime monitor: serde_json as executable model for 50 target types (Ok/Err agreement and PartialEq, floats by bits) over from_slice and from_str; ASan",
+         "Exploration over type-directed texts: matching (serialised random instances, boundary +-1 integers of every width incl. 128-bit), near-matching (14 mutators), padded and generic texts; ~2M comparisons in quick.",
+         "Trusted: serde_json 1.0.151 as model, run under its own panic guard (it panics on non-ASCII keys of bool-keyed maps; such cases carry no verdict). Documented exceptions implemented literally: depth > 64 not generated; f32 model = (f64 parse) as f32; a rejection by sonic of a text that is not well-formed JSON / not UTF-8 is never an alarm (serde_json is lenient for skipped strings and byte buffers); messages are not compared."),
  "C02": ("differential runtime monitor: independent RFC 8259 recogniser as accept/reject oracle over enumerated token sequences and mutated documents; ASan build",
          "Exploration: every listed entry point x carrier is executed on all token sequences up to the bound and on seeded generated/mutated documents; an independent recogniser decides what must be accepted. Held on the cases observed, not a proof over all byte strings.",
          "Trusted: the harness recogniser (cross-checked against serde_json), rustc, ASan runtime. Depth is capped at 64 so the permitted nesting-limit rejection never explains a verdict."),
